@@ -116,6 +116,41 @@ def check_parameters(R, view, parset, progset, instr, spec=None):
     return chains, binding
 
 
+def check_initial_sizes(R, P, view, parset):
+    """'Initial-size data are scaled by calibration factors in the same way': every set-up quantity at the first time point
+    is its databook value at the start year x population factor x all-population factor (x its denominator, scaled the
+    same way).  Populations in which a junction starts non-empty are skipped (the start-up flush moves those people)."""
+    from av.props import c07
+
+    fw = view.fw
+    juncs = {n for n, row in fw.comps.iterrows() if row["is junction"] == "y"}
+    for pop in list(P.data.pops.keys()):
+        if any(float(c["vals"][0]) != 0 or (c["name"] in parset.pars and pop in parset.pars[c["name"]].ts and parset.pars[c["name"]].has_values(pop) and float(parset.pars[c["name"]].interpolate(view.t[:1], pop)[0]) != 0) for c in view.comps if c["pop"] == pop and c["name"] in juncs):
+            R.count("initial_sizes_skipped[junction starts non-empty]")
+            continue
+        try:
+            targets = c07.init_targets(P, fw, pop)
+        except Exception:
+            R.count("initial_sizes_not_computable")
+            continue
+        if any(m in juncs for _n, mem, _v in targets for m in mem):
+            R.count("initial_sizes_skipped[junction is a member of a set-up quantity]")
+            continue
+        for name, members, val in targets:
+            if not np.isfinite(val):
+                continue
+            got = sum(float(c["vals"][0]) for c in view.comps if c["pop"] == pop and c["name"] in members)
+            R.count("initial_sizes_checked")
+            tol = (len(members) + 1) * 1e-6 + 1e-9 * abs(val)
+            if not abs(got - val) <= tol:
+                kind = "fraction" if (name in fw.characs.index and isinstance(fw.characs.loc[name]["denominator"], str)) else "number"
+                pp = parset.pars[name]
+                cal = "meta" if float(pp.meta_y_factor) != 1 else ("population" if float(pp.y_factor[pop]) != 1 else "none")
+                R.bad("initial-size=data*calibration", "C06:initial-size-differs[%s,calibration=%s]" % (kind, cal), {"quantity": name, "pop": pop, "expected": val, "got": got, "y_factor": float(pp.y_factor[pop]), "meta_y_factor": float(pp.meta_y_factor)})
+            else:
+                R.ok("initial-size=data*calibration")
+
+
 def transfer_expected(view, parset, pop, name, par):
     for tname, bysrc in parset.transfers.items():
         if not name.startswith(tname + "_"):
@@ -144,8 +179,30 @@ def run_case(case):
             pset = P.load_progbook(pb)
             instr = at.ProgramInstructions(start_year=P.settings.sim_start + 2.5)
         parset = P.parsets[0]
-        result = P.run_sim(parset, progset=pset, progset_instructions=instr)
+        # all-population calibration factor on the denominators of set-up fractions (and population factors on the fractions):
+        # 'initial-size data are scaled by calibration factors in the same way'
+        fwl = P.framework
+        touched = []
+        for cn, row in fwl.characs.iterrows():
+            if row["setup weight"] > 0 and isinstance(row["denominator"], str) and row["denominator"] in parset.pars:
+                parset.pars[row["denominator"]].meta_y_factor = 1.5
+                for pop_ in parset.pars[cn].pops:
+                    parset.pars[cn].y_factor[pop_] = 0.8
+                touched.append(cn)
+        try:
+            result = P.run_sim(parset, progset=pset, progset_instructions=instr)
+            if touched:
+                R.count("library_runs_with_calibrated_setup_fractions")
+        except Exception as e:
+            if type(e).__name__ != "BadInitialization":
+                raise
+            for cn in touched:  # the calibrated set-up data are not consistent for this model: run it as shipped
+                parset.pars[fwl.characs.loc[cn]["denominator"]].meta_y_factor = 1.0
+                for pop_ in parset.pars[cn].pops:
+                    parset.pars[cn].y_factor[pop_] = 1.0
+            result = P.run_sim(parset, progset=pset, progset_instructions=instr)
         view = ref.View(result)
+        check_initial_sizes(R, P, view, parset)
         chains, binding = check_parameters(R, view, parset, result.model.progset if pset is not None else None, instr)
         return {"records": R.records(), "stats": R.stats, "nontrivial": True, "sample": {"kind": "library", "name": name, "programs": pset is not None}}
 
@@ -166,6 +223,8 @@ def run_case(case):
             R.count("illposed_runs")
             return {"records": R.records(), "stats": R.stats, "nontrivial": False, "excluded": "ill-posed junction"}
         chains, binding = check_parameters(R, view, parset, result.model.progset if pset is not None else None, instr)
+        if parset.initialization is None:
+            check_initial_sizes(R, P, view, parset)
         return {"records": R.records(), "stats": R.stats, "nontrivial": bool(chains), "sample": dict(corpus.describe(case))}
     spec, ps, scen = case["spec"], case.get("progspec"), case.get("scenario")
     P = gen.build_project(spec)
@@ -201,6 +260,8 @@ def run_case(case):
         return {"records": R.records(), "stats": R.stats, "nontrivial": False, "excluded": "ill-posed junction"}
     tp = simcase.first_bad([p.vals for p in view.pars.values() if not simcase._is_output_only(p) and np.all(np.isfinite(np.asarray(p.vals, dtype=float)[:1]))])
     chains, binding = check_parameters(R, view, parset, result.model.progset if pset is not None else None, instr, spec)
+    if getattr(parset, "initialization", None) is None:
+        check_initial_sizes(R, P, view, parset)
     # scenario semantics: values from the first overwrite year onward are the scenario series
     if scen is not None and (scen["pop"], scen["par"]) in view.pars:
         par = view.pars[(scen["pop"], scen["par"])]
